@@ -27,7 +27,7 @@ import lib
 
 PROP = "C14"
 MODEL_TARGETS = ["Model/Curves.vo", "Model/CurvesSpec.vo", "Model/CurvesObs.vo", "Model/ItemsObs.vo"]
-THEOREMS = ["C14_refine", "C14_refine_append_curve", "C14_refine_insert_curve", "C14_refine_append_curve_item", "C14_refine_insert_curve_item", "C14_refine_delete_curve", "C14_refine_update_curve", "C14_refine_replace_curve_item", "C14_refine_setitem", "C14_refine_setitem_array_present", "C14_refine_setitem_array_missing", "C14_refine_setitem_item_mismatch", "C14_refine_setitem_item_present", "C14_refine_setitem_item_missing", "C14_refine_set_data", "C14_set_data_lengths", "C14_refinement", "C14_outcomes", "C14_obs_keys", "C14_obs_keys_exact", "C14_obs_keys_sound", "C14_obs_missing_key", "C14_obs_missing_index", "C14_obs_int_index", "C14_obs_values", "C14_obs_items", "C14_obs_index", "C14_obs_get_curve", "C14_obs_data_defined", "C14_obs_data_empty", "C14_obs_data_ragged", "C14_obs_data_columns", "C14_inv_fresh", "C14_inv_read_partial", "C14_inv_step_partial", "C14_inv_reachable_partial", "C14_inv_reachable_names_partial", "C14_reachable_lookup_partial", "C14_independent", "C14_independent_history", "C14_truncate_refuted_prefix", "C14_replace_negative_refuted_prefix", "C14_keys_refuted"]
+THEOREMS = ["C14_refine", "C14_refine_append_curve", "C14_refine_insert_curve", "C14_refine_append_curve_item", "C14_refine_insert_curve_item", "C14_refine_delete_curve", "C14_refine_update_curve", "C14_refine_replace_curve_item", "C14_refine_setitem", "C14_refine_setitem_array_present", "C14_refine_setitem_array_missing", "C14_refine_setitem_item_mismatch", "C14_refine_setitem_item_present", "C14_refine_setitem_item_missing", "C14_refine_set_data", "C14_set_data_lengths", "C14_refinement", "C14_outcomes", "C14_obs_keys", "C14_obs_keys_exact", "C14_obs_keys_sound", "C14_obs_missing_key", "C14_obs_missing_index", "C14_obs_int_index", "C14_obs_values", "C14_obs_items", "C14_obs_index", "C14_obs_get_curve", "C14_obs_data_defined", "C14_obs_data_empty", "C14_obs_data_ragged", "C14_obs_data_columns", "C14_inv_fresh", "C14_inv_read_partial", "C14_inv_step_partial", "C14_inv_reachable_partial", "C14_inv_reachable_names_partial", "C14_reachable_lookup_partial", "C14_independent", "C14_independent_history", "C14_truncate_refuted_prefix", "C14_replace_negative_refuted_prefix", "C14_keys_refuted", "C14_keys_read", "C14_keys_step_partial", "C14_keys_closed_form_partial", "C14_keys_grows_keeps", "C14_set_data_keys", "C14_keys_closed_form_stale"]
 ASSUMPTIONS = [
     "hand model of the curve methods of las.py (Model/Curves.v, on top of Model/Items.v) tied by correspondence: every "
     "generated history is run on real LASFile objects and on the model inside Coq; compared after EVERY step: the "
